@@ -829,6 +829,12 @@ func (t *trzszTransfer) serverError(err error) {
 		typ = "FAIL"
 	}
 	_ = t.sendString(typ, err.Error())
+	if conn := t.tunnelConn.Load(); conn != nil && !t.tunnelConnected {
+		// a client has greeted on the tunnel but its ACT has not been read yet: it may already
+		// listen to the tunnel only, so tell it there as well
+		t.writer = *conn
+		_ = t.sendString(typ, err.Error())
+	}
 
 	t.serverExit(err.Error())
 }
